@@ -26,6 +26,7 @@ OUT OF OR IN CONNECTION WITH THE SOFTWARE OR THE USE OR OTHER DEALINGS IN
 THE SOFTWARE.
 """
 
+import pymbolic.primitives as p
 from pymbolic.mapper.stringifier import (
     PREC_LOGICAL_AND,
     PREC_LOGICAL_OR,
@@ -111,7 +112,8 @@ class CCodeMapper(SimplifyingSortingStringifyMapper):
                 # Spaces prevent '**z' (times dereference z), which
                 # is hard to read.
 
-                self.join_rec(" * ", expr.children, PREC_PRODUCT),
+                self.join_rec(" * ", expr.children, PREC_PRODUCT,
+                    force_parens_around=(p.Quotient, p.Remainder)),
                 enclosing_prec, PREC_PRODUCT)
 
     def map_constant(self, x, enclosing_prec):
